@@ -127,7 +127,8 @@ def check_case(case, res):
     tree = {'width': num(f(W)), 'height': num(f(H))}
     regions = [vec(e, k) for e, (_, k) in zip(exs, items) if k != 'fixed']
     if regions:
-        tree['regions'] = regions
+        # a single region may also be written in the flat form  regions: [x, y, w, h, tag]
+        tree['regions'] = regions[0] if (case.get('flat') and len(regions) == 1) else regions
     fixed = [e for e, (_, k) in zip(exs, items) if k == 'fixed']
     netlist = None
     if case.get('terminals_only') and not fixed:
@@ -272,6 +273,8 @@ def run_shard(shard, tier, res):
                 if k == 1 and kinds[0] != 'fixed':
                     reset_frame_state()
                     check_case(dict(fam=fam, W=W, H=H, items=items, one_module=False, terminals_only=True), res)
+                    reset_frame_state()
+                    check_case(dict(fam=fam, W=W, H=H, items=items, one_module=False, flat=True), res)
     res.samples.append(dict(fam=fam, W=W, H=H, items=[[list(a), 'dsp']]))
 
 
